@@ -3,6 +3,7 @@
 package props
 
 import (
+	"strconv"
 	"fmt"
 	"sort"
 	"strings"
@@ -25,12 +26,21 @@ type CSpec struct {
 	// Aliases: further entries of the daemon's Names list (legacy links add /parent/alias); the
 	// container is known to LogQL under Name only
 	Aliases []string `json:"aliases,omitempty"`
+	// Created: creation time in unix seconds as the daemon lists it (0 = 1700000000)
+	Created int64 `json:"created,omitempty"`
+}
+
+func (c CSpec) created() int64 {
+	if c.Created != 0 {
+		return c.Created
+	}
+	return 1700000000
 }
 
 func (c CSpec) container() types.Container {
 	tc := types.Container{
 		ID: c.ID, Image: c.Image, ImageID: "sha256:" + c.Image, Command: "/bin/" + c.Image,
-		Created: 1700000000, State: c.State, Status: "Up 1 hour", Labels: c.Labels,
+		Created: c.created(), State: c.State, Status: "Up 1 hour", Labels: c.Labels,
 	}
 	if c.Name != "" {
 		tc.Names = append([]string{c.Name}, c.Aliases...)
@@ -149,7 +159,7 @@ func expectedContainerLabels3(c CSpec) (map[string]string, bool, bool) {
 		"container_state": c.State,
 		// what CSpec.container() reports for the remaining built-in fields
 		"container_image_id": "sha256:" + c.Image, "container_command": "/bin/" + c.Image,
-		"container_created": "1700000000", "container_status": "Up 1 hour",
+		"container_created": strconv.FormatInt(c.created(), 10), "container_status": "Up 1 hour",
 	}
 	keyClash, builtinClash := false, false
 	seen := map[string]bool{}
